@@ -284,8 +284,9 @@ def compare_physical(A, B, tol_m=1e-7, rel=1e-6, what=("points", "obs", "stats",
                 bad.append(("stats:" + k, "%s: %s vs %s" % (k, A[k], B[k])))
         for k in ("ss", "aposteriori"):
             a, b = A[k], B[k]
-            # 8 significant digits printed
-            if abs(a - b) > rel * max(abs(a), abs(b)) + 1e-7 * max(abs(a), abs(b)) + 1e-12:
+            # 8 significant digits printed; v'Pv is the square of what `rel` bounds (a posteriori deviation)
+            rk = 2 * rel if (k == "ss" and rel > 1e-6) else rel
+            if abs(a - b) > rk * max(abs(a), abs(b)) + 1e-7 * max(abs(a), abs(b)) + 1e-12:
                 bad.append(("stats:" + k, "%s: %.10g vs %.10g" % (k, a, b)))
     if "points" in what:
         if set(A["points"]) != set(B["points"]):
